@@ -226,6 +226,12 @@ func (r *run) onWrite(c *fakenet.Conn, data []byte) error {
 		cs.injected.Add(1)
 		kill := cs.killAfter > 0 && int(cs.injected.Load()) >= cs.killAfter
 		r.mu.Unlock()
+		if !c.Stream && (r.cell.Seed+int64(n))%3 == 0 {
+			// a datagram shorter than a DNS header right before the reply: must be
+			// ignored without affecting the following reply
+			c.Inject(make([]byte, 1+int(r.cell.Seed+int64(n))%11))
+			rep.Count("runt_datagrams_injected_before_reply", 1)
+		}
 		id := c.Inject(msg)
 		r.mu.Lock()
 		r.injK[injKey{c, id}] = &injRec{cl: cl, tok: tok}
@@ -380,6 +386,10 @@ func runCell(cl cell) (violated bool) {
 				return
 			}
 			wit["returned_token"] = ri.Token
+		if ri.ID != c.id {
+			rep.Violation("id-not-restored-"+cl.Transport+"-"+cl.Mode+"-"+cl.After, fmt.Sprintf("call with caller ID %#04x got its reply back with ID %#04x", c.id, ri.ID), wit)
+			return
+		}
 			if consumedTk != "" && ri.Token != consumedTk {
 				vmu.Lock()
 				violated = true
